@@ -297,7 +297,19 @@ def _run_random(mod, phase, tier, seed, shard, nshards, suppress, deadline, stat
         case, (key, detail) = state['last']
         stats.add_violation(phase, key, case, detail)
     except hypothesis.errors.HypothesisException as e:
-        raise HarnessError(f'Hypothesis reported {type(e).__name__} in phase {phase.name}: {e}') from e
+        if state['last'] is not None and 'Flaky' in type(e).__name__:
+            # a violation was observed but did not reproduce while shrinking (state leaking out of the
+            # code under test): report the observed case unshrunk rather than a harness error
+            case, (key, detail) = state['last']
+            stats.add_violation(phase, key, case, detail + ' [observed once; did not reproduce during shrinking]')
+        else:
+            raise HarnessError(f'Hypothesis reported {type(e).__name__} in phase {phase.name}: {e}') from e
+    except BaseExceptionGroup as e:  # noqa: F821  (Hypothesis wraps flaky failures in a group)
+        if state['last'] is not None:
+            case, (key, detail) = state['last']
+            stats.add_violation(phase, key, case, detail + ' [observed once; did not reproduce during shrinking]')
+        else:
+            raise HarnessError(f'exception group in phase {phase.name}: {e!r}') from e
 
 
 # -- main entry ---------------------------------------------------------------
